@@ -1,15 +1,31 @@
+import importlib.util, os
+_spec = importlib.util.spec_from_file_location("c11_tie", os.path.join(os.path.dirname(os.path.abspath(__file__)), "C11_tie.py"))
+c11_tie = importlib.util.module_from_spec(_spec); _spec.loader.exec_module(c11_tie)
 T = "GeomV.C11."
 CFG = {
     "id": "C11",
-    "lean_modules": ["GeomV.C11.Proofs"],
+    "lean_modules": ["GeomV.C11.Proofs"] + c11_tie.C11_TIES,
     "exe": "geomv_c11",
     "go_cmd": "c11",
     "stages": ["go:gen", "go:impl", "lean:judge"],
     "theorems": [T + n for n in [
         "C11_init", "C11_sharePoint_iff", "C11_intersects_iff", "C11_search", "C11_split_partition",
         "C11_insert", "C11_delete_absent", "C11_delete_present", "C11_step", "C11_reachable",
-        "C11_search_reachable", "C11_goHeur_inRange"]],
+        "C11_search_reachable", "C11_goHeur_inRange",
+        # T1: definitions regenerated from index/rtree/{geom,rtree}.go of the tree under test = the model's
+        "C11_tie_size", "C11_tie_margin", "C11_tie_containsPoint", "C11_tie_containsRect", "C11_tie_intersect",
+        "C11_tie_enlarge", "C11_tie_initBoundingBox", "C11_tie_boundingBox", "C11_tie_computeBoundingBox",
+        "C11_tie_assignGroup", "C11_tie_pickNext", "C11_tie_pickSeeds",
+        # … and the box theorems restated for the regenerated definitions
+        "C11_intersects_iff_src", "C11_containsRect_src", "C11_enlarge_src", "C11_computeBoundingBox_src"]],
     "trusted_base": [
+        "T1: harness/cmd/c11/extract.go (go/ast; translation table in its header) regenerates lean/GeomV/C11/Gen.lean from "
+        "index/rtree/geom.go and rtree.go of the tree under test on every run; Ties/*.lean prove Gen.f = Model.f for size, margin, "
+        "containsPoint, containsRect, intersect, enlarge, initBoundingBox, boundingBox, computeBoundingBox, assignGroup, pickNext, "
+        "pickSeeds; a function outside the translatable subset is missing from Gen.lean and its tie fails by name",
+        "control-skeleton tie: harness/cmd/c11/skeleton.go prints the conditions, loop kinds, calls, returns/breaks and the assignments "
+        "to height/size/root/parent/level/leaf/entries of every structural function (and the fields of Rtree/node/entry) and the "
+        "run compares it with harness/cmd/c11/skeleton.expected, the text the hand-written model was transcribed from",
         "Lean 4.33.0 kernel; axioms of every theorem printed by #print axioms must be within {propext, Classical.choice, Quot.sound}",
         "model lean/GeomV/C11/Model.lean (functional tree with the stored fields of the Go structs; parent links = recursion path; "
         "findLeaf + entry removal + condenseTree's upward loop fused into one recursion `delIn`) is tied to /repo/index/rtree/rtree.go "
@@ -38,3 +54,10 @@ CFG = {
     "explanation": "SPEC verdicts are computed from Spec.lean on the implementation's own dump and answers (wfNode, Size, stored "
                    "multiset vs history semantics, Delete result, brute-force search); DIFF = dump/answers differ from the model.",
 }
+
+
+def pregen(check):
+    c11_tie.pregen(check, c11_tie.C11_TIES)
+
+
+CFG["pregen"] = pregen
